@@ -178,7 +178,29 @@ func cmdCheck(argv []string) {
 	replayS := 0.0
 	if !*noReplay && len(cases) > 0 {
 		t0 := time.Now()
-		results, replayLog, err = replayNative(*repo, harnessDir, ld, cases, 10*time.Minute)
+		var plain []ReplayCase
+		results = map[string]ReplayResult{}
+		for _, c := range cases {
+			if prop == "C17" && strings.HasPrefix(c.ID, "viol-") {
+				// non-interference violations are confirmed under the race detector, one case per run
+				c.Race = true
+				r1, l1, e1 := replayNative(*repo, harnessDir, ld, []ReplayCase{c}, 10*time.Minute)
+				if e1 != nil {
+					fmt.Fprintln(os.Stderr, e1)
+				}
+				replayLog += l1
+				for k, v := range r1 {
+					results[k] = v
+				}
+				continue
+			}
+			plain = append(plain, c)
+		}
+		r2, l2, err := replayNative(*repo, harnessDir, ld, plain, 10*time.Minute)
+		replayLog += l2
+		for k, v := range r2 {
+			results[k] = v
+		}
 		replayS = time.Since(t0).Seconds()
 		if err != nil {
 			fmt.Fprintln(os.Stderr, err)
@@ -210,6 +232,9 @@ func cmdCheck(argv []string) {
 			switch k.kind {
 			case "assert":
 				repro = r.Outcome == "assert" && len(r.Failures) > 0 && r.Failures[len(r.Failures)-1] == k.msg
+				if prop == "C17" && r.Outcome == "race" {
+					repro = true
+				}
 			case "panic":
 				repro = r.Outcome == "panic"
 			case "steplimit":
